@@ -5,9 +5,10 @@
   (all national algorithms except CZ/SK and IS — exactly the 19 countries of the property), any
   successfully computed check digits validate, for all component strings; together with the
   placement theorem of C08 (the fields the algorithm reads and the check-digit field are found
-  unchanged in the assembled BBAN) this is "computing and validating agree".  The end-to-end
-  statements (generate → validate nationally, random draws, parse → rebuild) are exercised by the
-  correspondence stream for every country with published positions.
+  unchanged in the assembled BBAN) this is "computing and validating agree"; the end-to-end form
+  (every IBAN `generate` returns for one of the 19 countries passes national validation) is proved
+  in `C09EndToEnd.lean`.  Random draws and parse → rebuild are exercised by the correspondence
+  stream for every country with published positions.
 -/
 import SV.Props.C08
 import SV.Props.C06
